@@ -268,7 +268,7 @@ func runC06(rc *fw.RunCtx) {
 	g := rc.Tape.Stream("gen")
 	f := rc.Tape.Stream("fault")
 	prog := genBlock(g)
-	api := g.Intn(4) // 0,1: risor.Eval   2: risor.Call(entry)   3: risor.EvalCode of precompiled code on a reused VM
+	api := g.Intn(5) // 0,1: risor.Eval   2: risor.Call(entry)   3: risor.EvalCode of precompiled code on a reused VM   4: vm.Clone() + Call(entry)
 	useDeadline := f.Chance(1, 3)
 	cancelStep := 0
 	switch f.Intn(4) {
@@ -386,6 +386,32 @@ func runC06(rc *fw.RunCtx) {
 				}
 				return risor.Call(ctx, code, "entry", nil, opts...)
 			}
+			if api == 4 {
+				// the host's "template VM" pattern: run once to define things, then
+				// serve calls on clones, each with its own context
+				ast, err := parser.Parse(context.Background(), prog.EntrySrc)
+				if err != nil {
+					return nil, fmt.Errorf("harness: parse: %w", err)
+				}
+				cfg := risor.NewConfig(opts...)
+				code, err := compiler.Compile(ast, cfg.CompilerOpts()...)
+				if err != nil {
+					return nil, fmt.Errorf("harness: compile: %w", err)
+				}
+				machine := vm.New(code, cfg.VMOpts()...)
+				if err := machine.Run(context.Background()); err != nil {
+					return nil, fmt.Errorf("harness: template run: %w", err)
+				}
+				fnObj, err := machine.Get("entry")
+				if err != nil {
+					return nil, fmt.Errorf("harness: %w", err)
+				}
+				clone, err := machine.Clone()
+				if err != nil {
+					return nil, fmt.Errorf("harness: clone: %w", err)
+				}
+				return clone.Call(ctx, fnObj.(*object.Function), nil)
+			}
 			if api == 3 {
 				// precompiled (so the parser's own context check is out of the way)
 				// and on a VM that has already completed a run
@@ -482,7 +508,7 @@ func runC06(rc *fw.RunCtx) {
 	}
 	rc.Sample = map[string]any{
 		"program":  prog.Src,
-		"api":      []string{"risor.Eval", "risor.Eval", "risor.Call(entry)", "risor.EvalCode(precompiled, reused VM)"}[api],
+		"api":      []string{"risor.Eval", "risor.Eval", "risor.Call(entry)", "risor.EvalCode(precompiled, reused VM)", "vm.Clone()+Call(entry)"}[api],
 		"fault":    fmt.Sprintf("%s at step %d (observed at %d), watcher delay %d", kind, cancelStep, cancelSeen, watcherDelay),
 		"schedule": s.RenderTrace(40),
 		"strategy": strat.Name(),
